@@ -86,23 +86,23 @@ def oracle(ck, extended):
         nb, c = rng.choice([(1, 1), (2, 1), (1, 2)])
         if it % 2 == 0:
             yl, yh = make_pyramid(rng, 1, nb, c, gen.pick_len(rng, L, 30), L, L, m, J)
-            oracle_inv(ck, 1, m, (g0, g1), yl, yh)
+            rt.guard(ck, oracle_inv, ck, 1, m, (g0, g1), yl, yh)
         else:
             L2 = 2 * rng.randint(1, 4)
             four = rng.random() < 0.5
             yl, yh = make_pyramid(rng, 2, nb, c, (gen.pick_len(rng, L, 18), gen.pick_len(rng, L2, 18)), L, L2 if four else L, m, J)
             filt = (g0, g1, gen.int_filter(rng, L2), gen.int_filter(rng, L2)) if four else (g0, g1)
-            oracle_inv(ck, 2, m, filt, yl, yh)
+            rt.guard(ck, oracle_inv, ck, 2, m, filt, yl, yh)
     for name in named_wavelets(rng, 40 if q else 106):
         w = pywt.Wavelet(name); L = w.dec_len
         m = rng.choice(gen.MODES5); J = rng.randint(1, 3)
         fl = lambda sh: gen.float_tensor(ck.nprng, sh, rng.choice([1.0, 1e3]))
         if rng.random() < 0.5:
             yl, yh = make_pyramid(rng, 1, 1, 2, max(2, rng.choice([L + rng.randint(0, 9), rng.randint(2, 40)])), L, L, m, J, fl)
-            oracle_inv(ck, 1, m, (np.array(w.rec_lo), np.array(w.rec_hi)), yl, yh, tol=1e-9, named=name)
+            rt.guard(ck, oracle_inv, ck, 1, m, (np.array(w.rec_lo), np.array(w.rec_hi)), yl, yh, tol=1e-9, named=name)
         else:
             yl, yh = make_pyramid(rng, 2, 1, 1, (max(2, rng.choice([L + rng.randint(0, 5), rng.randint(2, 24)])), rng.randint(2, 24)), L, L, m, J, fl)
-            oracle_inv(ck, 2, m, (np.array(w.rec_lo), np.array(w.rec_hi)), yl, yh, tol=1e-9, named=name)
+            rt.guard(ck, oracle_inv, ck, 2, m, (np.array(w.rec_lo), np.array(w.rec_hi)), yl, yh, tol=1e-9, named=name)
 
 
 def spec_check(ck):
